@@ -42,7 +42,8 @@ def required_cells(tier):
             ['style:google', 'style:freeform', 'open:same-line', 'open:own-line', 'where:func', 'where:method',
              'where:class', 'where:module', 'where:deco', 'start-line-checks', 'part-offset-checks',
              'blank-lines-before-first-block', 'ignored-block-before-doctest',
-             'opening-line-differs-from-evaluated-text', 'open:on-the-def-line'])
+             'opening-line-differs-from-evaluated-text', 'open:on-the-def-line',
+             'traceback-entries-of-inner-frames'])
 
 
 def gen_doctest(rng, uid, fail_kind):
@@ -74,7 +75,8 @@ def gen_doctest(rng, uid, fail_kind):
     elif fail_kind == 'compound_raise':
         L += ['>>> for q in range(2):', '...     qq = q', '...     raise KeyError("%s")' % fm]
     elif fail_kind == 'called':
-        L += ['>>> def bad():', '...     x = 1', '...     raise RuntimeError("inner")', '>>> y = 2', '>>> bad()  # %s' % fm]
+        L += ['>>> def bad():', '...     x = 1', '...     raise RuntimeError("inner")  # INNER%s' % uid, '>>> y = 2',
+              '>>> bad()  # %s' % fm]
     elif fail_kind == 'called_long':
         L += ['>>> def bad():', '...     x = 1', '...     y = 2', '...     z = 3', '...     w = 4',
               '...     raise RuntimeError("inner")', '', 'prose splits the parts', '', '>>> bad()  # %s' % fm]
@@ -93,7 +95,7 @@ def gen_doctest(rng, uid, fail_kind):
         L += ['>>> try:', '...     try:', '...         raise ValueError("%s")' % fm, '...     finally:', '...         q = 1',
               '... finally:', '...     r = 2']
     elif fail_kind == 'lambda_call':
-        L += ['>>> fz = lambda: 1 / 0', '>>> w = 3', '>>> fz()  # %s' % fm]
+        L += ['>>> fz = lambda: 1 / 0  # INNER%s' % uid, '>>> w = 3', '>>> fz()  # %s' % fm]
     elif fail_kind == 'while_else':
         L += ['>>> n = 2', '>>> while n:', '...     n -= 1', '... else:', '...     raise KeyError("%s")' % fm]
     elif fail_kind == 'bad_repr':
@@ -354,6 +356,34 @@ def check_module(ctx, idx, seed):
                 ctx.cell('fail:' + kind)
                 if s['failed'] and e.lineno > 2:
                     ctx.nontrivial(src)
+                if kind in ('called', 'lambda_call'):
+                    # the report's traceback: every entry of a frame in the doctest's own code carries 'rel' and 'abs'
+                    # line numbers; for the inner frame (helper defined and called in the same part) 'abs' must be the
+                    # file line of the statement that raised, for the outer one the calling line
+                    e.config['colored'] = False
+                    try:
+                        rep = '\n'.join(e.repr_failure())
+                    except Exception as ex:
+                        bad('report-raised', 'repr_failure() raised %r' % (ex,))
+                        ok_all = False
+                        break
+                    entries = re.findall(r'line rel: (\d+), abs: (\d+), in (\S+)', rep)
+                    inner = [(int(r), int(a), n) for r, a, n in entries if n in ('bad', '<lambda>')]
+                    outer = [(int(r), int(a), n) for r, a, n in entries if n == '<module>']
+                    inner_mark = 'INNER' + fm[4:]
+                    okf = bool(inner) and bool(outer)
+                    for r, a, n in inner:
+                        okf = okf and 1 <= a <= len(flines) and inner_mark in flines[a - 1]
+                    for r, a, n in outer:
+                        okf = okf and 1 <= a <= len(flines) and fm in flines[a - 1]
+                    if not okf:
+                        bad('traceback-entry', 'the traceback of the report places its doctest frames at %r; the inner frame is on '
+                            'line %d (%s), the calling statement on line %d\n--- report ---\n%s' % (
+                                entries, 1 + next(i for i, x in enumerate(flines) if inner_mark in x), inner_mark,
+                                1 + next(i for i, x in enumerate(flines) if fm in x), rep), kind=kind)
+                        ok_all = False
+                        break
+                    ctx.cell('traceback-entries-of-inner-frames')
         if ok_all:
             for f in feats:
                 ctx.cell(f)
